@@ -880,6 +880,89 @@ def run_repo_suite_under_monitor(w) -> None:
             nodeid, live), {"repo_suite": nodeid})
 
 
+SPECULATIVE_SOURCE = '''
+import icontract
+
+CALLS = []
+ARMED = [None]
+
+
+class Interrupt(BaseException):
+    pass
+
+
+def helper(tag):
+    """User code inside a condition; may be interrupted (like any code) while the library runs it to build a message."""
+    CALLS.append(tag)
+    if ARMED[0] is not None:
+        raise ARMED[0]
+    return 1
+
+
+@icontract.require(lambda xs: len([helper("element") for x in xs]) > 0)
+def pre_element(xs):
+    return xs
+
+
+@icontract.ensure(lambda result: any(x > 5 for x in result if helper("filter") > 0))
+def post_filter(xs):
+    return xs
+
+
+@icontract.invariant(lambda self: self.ok or any({{helper("set") for x in self.items}}))
+class K:
+    def __init__(self, ok=True):
+        self.ok = ok
+        self.items = []
+
+    def spoil(self):
+        self.ok = False
+'''
+
+
+def run_speculative_faults(w) -> None:
+    """A BaseException raised by user code while the library evaluates a part of the condition on its own account (parts of a
+    comprehension which Python skipped: empty iterable) surfaces - it is never swallowed and replaced by the plain violation."""
+    import icontract  # pylint: disable=import-outside-toplevel
+
+    loaded = prog.load_source(SPECULATIVE_SOURCE.format(), w.scratch())
+    mod = loaded.module
+    try:
+        for make_exc in (lambda: mod.Interrupt("i"), lambda: KeyboardInterrupt(), lambda: asyncio.CancelledError(), lambda: SystemExit(3)):
+            for tag, call in (("precondition-element", lambda: mod.pre_element([])), ("postcondition-filter", lambda: mod.post_filter([])),
+                              ("invariant-set-comprehension", lambda: mod.K().spoil())):
+                injected = make_exc()
+                del mod.CALLS[:]
+                before = in_progress_snapshot()
+                mod.ARMED[0] = None
+                obj_call = call
+                mod.ARMED[0] = injected
+                try:
+                    obj_call()
+                    outcome, exc = "returned", None
+                except BaseException as err:  # pylint: disable=broad-except
+                    outcome, exc = "raised " + type(err).__name__, err
+                finally:
+                    mod.ARMED[0] = None
+                w.count("faulted_runs")
+                w.count("speculative_faults")
+                w.case(("speculative-fault", tag, type(injected).__name__))
+                case = {"speculative": tag, "kind": type(injected).__name__}
+                if not mod.CALLS:
+                    # the library did not run the helper on its own account: nothing was injected
+                    w.count("faults_not_reached")
+                    continue
+                if not chained(exc, injected):
+                    w.violation("C11/injected-exception-silently-dropped", "{} raised by user code while the message of {} was built, but the call {}"
+                                .format(type(injected).__name__, tag, outcome), case)
+                after = in_progress_snapshot()
+                if before is not None and after is not None and after != before:
+                    w.violation("C11/suspension-state-not-restored", "live marks {} after an exception during the message building of {}".format(
+                        sorted(after), tag), case)
+    finally:
+        loaded.unload()
+
+
 GROWTH_SOURCE = '''
 import icontract
 
@@ -977,6 +1060,7 @@ def run(w) -> None:
         run_out_of_order_end(w)
     if w.shard == 2 % w.nshards:
         run_faulted_new(w)
+        run_speculative_faults(w)
     if w.shard == 3 % w.nshards:
         run_line_faults(w)
     if w.tier == "thorough" and w.shard == 4 % w.nshards:
@@ -1008,6 +1092,9 @@ def replay(case, w) -> None:
         return
     if "faulted_new" in case:
         run_faulted_new(w)
+        return
+    if "speculative" in case:
+        run_speculative_faults(w)
         return
     if "line_fault" in case:
         run_line_faults(w)
